@@ -67,6 +67,11 @@ func c16Gen(rng *rand.Rand, conf string, idx int) any {
 		for k, m := 0, rng.Intn(3); k < m; k++ {
 			w.Ops = append(w.Ops, C16Op{pick(rng, []string{"request", "settle", "wait-if-stopped", "request", "wait-alive"})})
 		}
+		mustFail := k == "unreachable" || k == "refuse" || k == "silent-register" || k == "drop-after-register"
+		if mustFail && rng.Intn(3) == 0 {
+			// a Start that failed needs no Stop: the next Start follows at once
+			continue
+		}
 		switch rng.Intn(3) {
 		case 0:
 			w.Ops = append(w.Ops, C16Op{"stop"})
@@ -521,6 +526,26 @@ func c16Exec(t *testing.T, w *C16W, sc SchedCfg, ph *c16Phases, rec *c16Phases) 
 				// a request is scored only if the session is believed healthy and started: the final session
 				if i > lastStart && kind == "healthy" && results[lastStart].Err == nil && r.Err != nil {
 					res.Violate("C16.session-usable", "after %v the restarted stub does not work: request failed: %v (close notifications so far: %d)", opNames(w.Ops[:i]), r.Err, closes)
+				}
+				// the same for an earlier session: started by Start on a healthy runtime end, not stopped or
+				// lost since, nobody else calling Stop: a request must get through (a late notification of
+				// an earlier, failed or ended, session must not have torn it down)
+				// (a request's Session is the number of connections dialled so far: its session is the one before)
+				if k2, _ := sessKind(r.Session - 1); i < lastStart && k2 == "healthy" && len(w.Side) == 0 && r.Err != nil {
+					ok := false
+					for j := i - 1; j >= 0; j-- {
+						op := w.Ops[j].Op
+						if op == "stop" || op == "lose" || op == "lose-midwrite" || op == "run" || op == "join" {
+							break
+						}
+						if op == "start" {
+							ok = results[j] != nil && results[j].Done && results[j].Err == nil && results[j].Session == r.Session-1
+							break
+						}
+					}
+					if ok {
+						res.Violate("C16.session-usable", "after %v the stub's session on a healthy runtime end does not work: request failed: %v (close notifications so far: %d)", opNames(w.Ops[:i]), r.Err, closes)
+					}
 				}
 			}
 		}
